@@ -4,8 +4,8 @@
 From Coq Require Import List NArith ZArith Bool.
 From GIV.Lib Require Import Regex Str.
 From GIV.Gen Require Import HashSizes.
-From GIV.Model Require Import C14.
-From GIV.Proofs Require Import C14.
+From GIV.Model Require Import C14 C14R.
+From GIV.Proofs Require Import C14 C14R.
 Import ListNotations.
 Local Open Scope N_scope.
 
@@ -66,6 +66,26 @@ Theorem C14_find_by_gtype : forall libs g,
   end.
 Proof. exact find_by_gtype_spec. Qed.
 Print Assumptions C14_find_by_gtype.
+
+(* the repository remembers what find-by-gtype found and what it did not find; typelibs are registered (eagerly or lazily)
+   in between.  Whatever the history of registrations and lookups, every answer is right for the typelibs registered at that
+   moment: a remembered miss never outlives the registration of the typelib that has the type *)
+Theorem C14_find_by_gtype_history : forall ops, answers_ok r_empty ops.
+Proof. exact repo_find_by_gtype_history. Qed.
+Print Assumptions C14_find_by_gtype_history.
+
+Theorem C14_miss_then_load : forall g (lazy : bool) l e,
+  lookup_gtype l.(t_dir) g = Some e ->
+  snd (rrun r_empty [RFind g; RLoad lazy l; RFind g]) = [Some None; None; Some (Some e)].
+Proof. exact miss_then_load. Qed.
+Print Assumptions C14_miss_then_load.
+
+(* a repository that keeps its remembered misses across a lazy registration answers wrongly *)
+Theorem C14_stale_miss_refuted :
+  snd (rrun_gen false r_empty [RFind [68;84]; RLoad true w_lib; RFind [68;84]]) = [Some None; None; Some None]
+  /\ has_gtype w_lib [68;84].
+Proof. exact stale_unknown_refuted. Qed.
+Print Assumptions C14_stale_miss_refuted.
 
 (* the section the compiler reserves is large enough for the packed index, for every entry
    count: the width of `required_size` is read from the current source *)
